@@ -41,6 +41,17 @@ class UnhashableCallable:
         return self.f(obj, *args, **kwargs)
 
 
+class EqCallable(UnhashableCallable):
+    """Callback objects with value equality: all of them are equal and hash
+    alike (a frozen dataclass with __call__), each wraps its own function."""
+
+    def __eq__(self, other):
+        return isinstance(other, EqCallable)
+
+    def __hash__(self):
+        return 5
+
+
 class Actors:
     def __init__(self, desper, config, interp):
         it = interp
@@ -68,6 +79,10 @@ class Actors:
             # handler either works or is refused as a whole
             ns[m] = UnhashableCallable(ns[m])
             interp.probes['unhashable_callable_callback'] += 1
+        eqc = set(config.get('eqc', []))
+        for m in eqc:
+            ns[m] = EqCallable(ns[m])
+            interp.probes['equal_callable_callbacks'] += 1
         ns['_label'] = '?'
 
         def on_add(self, entity, world):
@@ -99,7 +114,9 @@ class Actors:
             if spec.get('mixin'):
                 bases = bases + (self.Mixin,)
             # a subclass may override callback methods of its bases
-            over = {m: make_method(m, i) for m in spec.get('override', [])}
+            over = {m: (EqCallable(make_method(m, i)) if m in eqc
+                        else make_method(m, i))
+                    for m in spec.get('override', [])}
             try:
                 cls = type(f'H{i}', bases, over)
             except TypeError:           # no consistent MRO: single base
@@ -1211,6 +1228,9 @@ def gen_config(prop, rng, allow_base2=False):
         cfg['heq'] = 'equal' if r < .1 else 'unhashable'
     if rng.random() < .12:
         cfg['pm'] = [m for m in METHODS if rng.random() < .5] or ['a']
+    elif prop == 'C03' and rng.random() < .08:
+        # distinct callback objects that are all equal to each other
+        cfg['eqc'] = [m for m in METHODS if rng.random() < .6] or ['a']
     elif prop == 'C03' and dkind == 'plain' and rng.random() < .08:
         cfg['uc'] = [m for m in METHODS if rng.random() < .4] or ['b']
     if rng.random() < .25:
